@@ -358,6 +358,12 @@ func genC08(r *rand.Rand, tier string, st *Stats) []Case {
 	for i := 0; i < sizes(tier, 300, 6000); i++ {
 		addCase(&cases, seen, st, "regex", regexSoup(r))
 	}
+	// deep nesting: every recursive construct of the three grammars (search language, regex literal, process code)
+	// nested 12..64 levels, inner expression on the left and on the right.  The sources are a few hundred bytes;
+	// a front end whose work doubles per level (re-parsing an operand, say) does not return on them.
+	for _, src := range deepSources(tier) {
+		addCase(&cases, seen, st, "deep", src)
+	}
 	// non-ASCII input: the lexer classifies runes with unicode.IsDigit / IsLetter / IsSpace, so every
 	// Unicode category it distinguishes is placed at token starts and inside tokens of valid programs,
 	// alone, and as malformed UTF-8
@@ -365,6 +371,85 @@ func genC08(r *rand.Rand, tier string, st *Stats) []Case {
 		addCase(&cases, seen, st, "unicode", unicodeInsert(r))
 	}
 	return cases
+}
+
+// deepSources: nested constructs.  Loop shapes keep min = 0: a mandatory copy doubles the generated code per level
+// on the unchanged tree too (the recorded unrolling finding).
+func deepSources(tier string) []string {
+	type shape struct {
+		pre, post string // pre + inner + post
+		open, end string // wrapped around the whole nest
+		leaf      string
+		numbered  bool // %d in pre/post is replaced by the level (unique names)
+	}
+	shapes := []shape{
+		{"(", ")", "find all ", "", "'a'", false},
+		{"(", " or 'b')", "find all ", "", "'a'", false},
+		{"('b' or ", ")", "find all ", "", "'a'", false},
+		{"(", " 'b')", "find all ", "", "'a'", false},
+		{"('b' ", ")", "find all ", "", "'a'", false},
+		{"((", ") or 'b')", "find all ", "", "'a'", false},
+		{"", " or 'b'", "find all ", "", "'a'", false},
+		{"'b' or ", "", "find all ", "", "'a'", false},
+		{"'b' ", "", "find all ", "", "'a'", false},
+		{"at least 0 (", ")", "find all ", "", "'a'", false},
+		{"maybe (", ") fewest", "find all ", "", "'a'", false},
+		{"at most 2 ('b' or (", "))", "find all ", "", "'a'", false},
+		{"(", ") = v%d", "find all ", "", "'a'", true},
+		{"('c' or (", ")) = v%d", "find all ", "", "'a'", true},
+		{"{", " 'b'} = s%d", "find all ", "", "'a'", true},
+		{"{'b' or (", ")} = s%d", "find all ", "", "'a'", true},
+		{"(", ")", "replace all ", " with 'x'", "'a'", false},
+		{"(", " or 'b')", "set p to pattern ", " find all p", "'a'", false},
+		{"'b', ", "", "find all in ", "", "'a'", false},
+		{"'b', ", "", "find all not in ", "", "'a'", false},
+		// regex literals
+		{"(", ")", "find all @/", "/", "a", false},
+		{"(?:", ")", "find all @/", "/", "a", false},
+		{"(", "|b)", "find all @/", "/", "a", false},
+		{"(b|", ")", "find all @/", "/", "a", false},
+		{"(", ")*", "find all @/", "/", "a", false},
+		{"(", ")?b", "find all @/", "/", "a", false},
+		{"(?<n%d>", ")", "find all @/", "/", "a", true},
+		{"b", "", "find all @/", "/", "a", false},
+		{"b|", "", "find all @/", "/", "a", false},
+		{"[a-b]", "", "find all @/", "/", "a", false},
+		// process code
+		{"(", " + 1)", "set f to transform return ", " end", "1", false},
+		{"(1 + ", ")", "set f to transform return ", " end", "1", false},
+		{"(", ")", "set f to transform return ", " end", "1", false},
+		{"", " + 1", "set f to transform return ", " end", "1", false},
+		{"1 * ", "", "set f to transform return ", " end", "1", false},
+		{"not ", "", "set p to pattern 'a' begin return ", " end find all p", "true", false},
+		{"(", " and true)", "set p to pattern 'a' begin return ", " end find all p", "true", false},
+		{"(true or ", ")", "set p to pattern 'a' begin return ", " end find all p", "true", false},
+		{"((", " < 1) == true)", "set p to pattern 'a' begin return ", " end find all p", "true", false},
+		{"head (", ")", "set f to transform return ", " end", "match", false},
+		{"if true then ", " end", "set f to transform ", " return 1 end", "set x to 1", false},
+		{"if false then return 2 else ", " end", "set f to transform ", " return 1 end", "set x to 1", false},
+		{"loop ", " break end", "set f to transform ", " return 1 end", "set x to 1", false},
+		{"set x to 1 ", "", "set f to transform ", " return 1 end", "set x to 1", false},
+	}
+	depths := []int{12, 24, 40, 64}
+	if tier == "thorough" {
+		depths = []int{4, 8, 12, 16, 20, 24, 28, 32, 40, 48, 64, 96}
+	}
+	out := []string{}
+	for _, sh := range shapes {
+		for _, d := range depths {
+			inner := sh.leaf
+			for l := 1; l <= d; l++ {
+				pre, post := sh.pre, sh.post
+				if sh.numbered {
+					pre = strings.ReplaceAll(pre, "%d", fmt.Sprint(l))
+					post = strings.ReplaceAll(post, "%d", fmt.Sprint(l))
+				}
+				inner = pre + inner + post
+			}
+			out = append(out, sh.open+inner+sh.end)
+		}
+	}
+	return out
 }
 
 var interestingRunes = []string{
